@@ -6,9 +6,10 @@
    ranks, empty ballots), any seat count, caps (selector form = all caps 1, distributor
    form = any caps), quota function with positive values, accept_quota_equal,
    mandatory_quota, eliminate_step.  asum = all weight held (continuing + exhausted). *)
-From Coq Require Import ZArith QArith List.
+From Coq Require Import ZArith QArith Qround List.
 From VL Require Import Prelude.PyDict Model.GetNBest Model.Convert Model.STV Proofs.STV_proofs Proofs.STV_elim_proofs
      Proofs.STV_resting_proofs.
+From VL Require Import Model.STVHare Proofs.STVHare_draws_proofs Proofs.STVHare_proofs Proofs.STVHare_count_proofs.
 Import ListNotations.
 Open Scope Q_scope.
 
@@ -190,6 +191,208 @@ Example C03_example :
     [(1%positive, 1%Z); (2%positive, 1%Z); (3%positive, 1%Z)]) = [(1%positive, 1%Z)].
 Proof. vm_compute. reflexivity. Qed.
 
+(* ================================================================ the Hare (random, whole-ballot) transferer
+   Model: Model/STVHare.v.  The random draws of Hare._subtract / Hare._distribute_equal_ranking are an ORACLE argument
+   [orc : oracle] (one list of integers per call of random.sample, consumed in call order); the theorems quantify over
+   EVERY oracle - nothing is assumed about the generator or the seed.  An entry that random.sample(range(N), k) cannot
+   return, or a missing entry, stops the count with HS_oracle.
+   [reach_h cf votes n caps prev0 orc a seats qs o]: the states (allocation, seats, seats filled by quota, rest of the
+   oracle) the count loop passes through when the transferer is Hare. *)
+
+(* I1 at EVERY count, for every oracle: votes held + one quota per seat filled by quota = votes cast (exactly) *)
+Theorem C03_hare_conservation_every_count :
+  forall cf votes n_seats caps prev0 (orc : oracle),
+  (forall c, (0 <= dget_or prev0 c 0)%Z) ->
+  let total := Qred (fold_left Qplus (map snd votes) 0) in
+  (forall qv, quota_of cf total n_seats = Some qv -> 0 < qv) ->
+  forall a seats qs o, reach_h cf votes n_seats caps prev0 orc a seats qs o ->
+    NoDup (akeys a) /\ (forall c, (0 <= dget_or seats c 0)%Z) /\
+    match quota_of cf total n_seats with
+    | Some qv => asum a + inject_Z qs * qv == cast votes
+    | None => asum a == cast votes /\ qs = 0%Z
+    end.
+Proof. intros cf votes n_seats caps prev0 orc H0 total Hq. exact (reach_h_conservation cf votes n_seats caps prev0 orc H0 Hq). Qed.
+
+(* I2 and whole ballots: from whole non-negative vote counts every weight of every reachable allocation is a
+   non-negative WHOLE number - Hare never produces a fraction of a ballot, whatever is drawn *)
+Theorem C03_hare_whole_weights_every_count :
+  forall cf votes n_seats caps prev0 (orc : oracle), votes_whole votes ->
+  forall a seats qs o, reach_h cf votes n_seats caps prev0 orc a seats qs o ->
+  forall k p b w, In (k, p) a -> In (b, w) p -> 0 <= w /\ w == inject_Z (Qfloor w).
+Proof.
+  intros cf votes n_seats caps prev0 orc Hv a seats qs o Hr k p b w Hk Hb.
+  pose proof (reach_h_whole cf votes n_seats caps prev0 orc a seats qs o Hv Hr) as Hw.
+  unfold alloc_whole in Hw. rewrite Forall_forall in Hw. specialize (Hw (k, p) Hk). unfold pile_whole in Hw.
+  rewrite Forall_forall in Hw. specialize (Hw (b, w) Hb). cbn [snd] in Hw.
+  split; [apply whole_nonneg_ge0, Hw|]. apply whole_nonneg_spec in Hw. tauto.
+Qed.
+
+(* I3 at EVERY count, for every oracle: a ballot without shared ranks rests with its highest-ranked continuing
+   candidate, or in the exhausted pile only when none continues - the drawn ballots leave, nothing else moves *)
+Theorem C03_hare_resting_every_count :
+  forall cf votes n_seats caps prev0 (orc : oracle) a seats qs o, reach_h cf votes n_seats caps prev0 orc a seats qs o ->
+  forall k p b w, In (k, p) a -> In (b, w) p -> plainb b = true ->
+    match k with
+    | Some c => exists pre post, b = pre ++ IP c :: post /\ In c (keys_some a) /\
+                                 forall x, In (IP x) pre -> ~ In x (keys_some a)
+    | None => forall x, In (IP x) b -> ~ In x (keys_some a)
+    end.
+Proof.
+  intros cf votes n_seats caps prev0 orc a seats qs o Hr k p b w Hk Hb Hp.
+  pose proof (reach_h_resting cf votes n_seats caps prev0 orc a seats qs o Hr k p b w Hk Hb Hp) as H.
+  destruct k as [c|]; exact H.
+Qed.
+
+(* the initial allocation (a shared first rank is split by the transferer: whole shares, the remainder drawn) *)
+Theorem C03_hare_initial_allocation : forall votes (orc : oracle) a o, initial_allocation_h votes orc = HOk a o ->
+  NoDup (akeys a) /\ asum a == cast votes /\ (votes_whole votes -> alloc_whole a) /\ resting_ok a.
+Proof. exact initial_allocation_h_spec. Qed.
+
+(* Hare._subtract, which individual ballots leave the pile of an elected candidate: the oracle entry is a sample of
+   exactly n distinct numbers below the (whole) weight of the pile; the pile loses exactly n; what is left are ballots
+   of before, in whole non-negative weights *)
+Theorem C03_hare_subtract_draw : forall p n (orc : oracle) p' o', hare_subtract p n orc = HOk p' o' ->
+  pile_whole p /\ pile_whole p' /\ wsum p' == wsum p - n /\ 0 <= n /\ n <= wsum p /\
+  (exists ds, orc = ds :: o' /\ draws_ok ds (Qfloor n) (pile_total p) = true /\ p' = hare_sub_pile p 0 ds) /\
+  (forall b w, In (b, w) p' -> exists w0, In (b, w0) p).
+Proof. exact hare_subtract_spec. Qed.
+
+(* a ballot can be drawn at most as often as it weighs: at most hi - lo distinct draws fall into [lo, hi) *)
+Theorem C03_hare_draws_bounded : forall ds lo hi, nodupb ds = true -> (lo <= hi)%Z -> (cnt_in ds lo hi <= hi - lo)%Z.
+Proof. exact cnt_in_le. Qed.
+
+(* Hare._distribute_equal_ranking: the shares of a ballot over a shared rank go to its targets only, add up to the
+   weight of the ballot exactly, and are whole non-negative numbers *)
+Theorem C03_hare_shared_rank_split : forall T w (orc : oracle) shares o', hare_split T w orc = HOk shares o' ->
+  ssum shares == w /\ (forall t s, In (t, s) shares -> In t T) /\
+  (whole_nonneg w = true -> forall t s, In (t, s) shares -> whole_nonneg s = true).
+Proof. exact hare_split_spec. Qed.
+
+(* the two moves of a count *)
+Theorem C03_hare_transfer : forall a elim (orc : oracle) a' o', NoDup (akeys a) -> resting_ok a ->
+  transfer_h a elim orc = HOk a' o' ->
+  asum a' == asum a /\ NoDup (akeys a') /\ resting_ok a' /\ (alloc_whole a -> alloc_whole a') /\
+  incl (keys_some a') (filter (fun c => negb (cmem c elim)) (keys_some a)).
+Proof.
+  intros a elim orc a' o' Hn Hr Ht. destruct (transfer_h_conserves a elim orc a' o' Hn Ht) as [H1 H2].
+  split; [exact H1|]. split; [exact H2|]. split; [exact (transfer_h_resting _ _ _ _ _ Hr Ht)|].
+  split; [intros Hw; exact (transfer_h_whole _ _ _ _ _ Hw Ht)|exact (transfer_h_keys_shrink _ _ _ _ _ Hr Ht)].
+Qed.
+
+Theorem C03_hare_subtract : forall elected a (orc : oracle) a' o', NoDup (akeys a) -> NoDup (map fst elected) ->
+  subtract_h a elected orc = HOk a' o' ->
+  asum a' == asum a - fold_right (fun ca acc => snd ca + acc) 0 elected /\ akeys a' = akeys a /\
+  (resting_ok a -> resting_ok a') /\ (alloc_whole a -> alloc_whole a').
+Proof.
+  intros elected a orc a' o' Hn Hd Hs. destruct (subtract_h_conserves elected a orc a' o' Hn Hd Hs) as [H1 H2].
+  split; [exact H1|]. split; [exact H2|]. split; [intros Hr; exact (subtract_h_resting _ _ _ _ _ Hr Hs)|].
+  intros Hw. exact (subtract_h_whole _ _ _ _ _ Hw Hs).
+Qed.
+
+(* election rule: whoever is elected in a count holds (before the draw) at least one quota per seat received and
+   receives at least one seat; distinct candidates; without a quota nobody is elected in a count *)
+Theorem C03_hare_election_rule : forall cf a n_seats total prev caps (orc : oracle) a' el o',
+  NoDup (akeys a) -> (forall c, (0 <= dget_or prev c 0)%Z) ->
+  (forall qv, quota_of cf total n_seats = Some qv -> 0 < qv) ->
+  next_count_h cf a n_seats total prev caps orc = HC_next a' el o' ->
+  NoDup (map fst el) /\
+  forall c s, In (c, s) el -> (0 < s)%Z /\
+    exists qv p, quota_of cf total n_seats = Some qv /\ alloc_get a (Some c) = Some p /\ inject_Z s * qv <= wsum p.
+Proof. exact next_count_h_election. Qed.
+
+(* ... or by being among the last standing: the elect-all-remaining shortcut does not look at the transferer; it fires
+   exactly when Gregory's does and fills exactly the open seats *)
+Theorem C03_hare_last_standing : forall cf a n total seats caps (orc : oracle) el,
+  next_count_h cf a n total seats caps orc = HC_all el ->
+  next_count cf a n total seats caps = CR_all el /\ seats_sum el = (n - zsum (map snd seats))%Z.
+Proof.
+  intros cf a n total seats caps orc el H. pose proof (next_count_h_all_eq _ _ _ _ _ _ _ _ H) as H1.
+  split; [exact H1|exact (next_count_all _ _ _ _ _ _ _ H1)].
+Qed.
+
+(* elimination rule: when the shortcut does not apply and nobody reaches the quota, the count refuses a tie at the cut
+   and otherwise transfers away exactly [eliminated cf a] - the same candidates as under Gregory: their number
+   (C03_elimination_count / _configured), their being the lowest (C03_elimination_lowest) and the exhausted pile not
+   being a contender (C03_pile_not_a_contender) are theorems about any allocation *)
+Theorem C03_hare_elimination_step : forall cf a n total prev caps (orc : oracle) quota,
+  next_count_h cf a n total prev caps orc <> HC_all (flat_map (fun kt : option C * Q => match fst kt with
+                                         | Some c => [(c, (dget_or caps c 0 - dget_or prev c 0)%Z)]
+                                         | None => [] end) (sort_desc Qle_bool (totals a))) ->
+  quota = match c_quota cf with
+          | Some qf => if Qeq_bool total 0 || (n =? 0)%Z then None else Some (qf total n)
+          | None => None end ->
+  elect_by_quota cf (totals a) quota (n - zsum (map snd prev))%Z prev caps = inl None ->
+  next_count_h cf a n total prev caps orc =
+    if has_tie_r (retained cf a) then HC_stop (HS_std S_nie)
+    else match eliminated cf a with
+         | [] => HC_next a [] orc
+         | _ => lift_h (transfer_h a (eliminated cf a) orc) []
+         end.
+Proof. exact next_count_h_noquota. Qed.
+
+(* how a count can end otherwise: with whole non-negative weights it never leaves the modelled domain
+   (HS_unmodelled), never draws more than a pile holds (ValueError) and never misses a pile (KeyError) - it refuses a
+   tie, meets a fractional number of ballots to draw (TypeError: seats * quota is not a whole number) or rejects the
+   oracle *)
+Theorem C03_hare_count_stops : forall cf a n_seats total prev caps (orc : oracle) s,
+  NoDup (akeys a) -> alloc_whole a -> (forall c, (0 <= dget_or prev c 0)%Z) ->
+  (forall qv, quota_of cf total n_seats = Some qv -> 0 < qv) ->
+  next_count_h cf a n_seats total prev caps orc = HC_stop s ->
+  s = HS_std S_nie \/ s = HS_oracle \/
+  (s = HS_type /\ exists qv k, quota_of cf total n_seats = Some qv /\ (0 < k)%Z /\ is_int (inject_Z k * qv) = false).
+Proof. exact next_count_h_stops. Qed.
+
+(* the trace of stv_h (what the correspondence stream compares with nth_count / next_count): every recorded count is
+   the elect-all-remaining shortcut (no allocation) or a reachable allocation - so it satisfies the invariants above -
+   and the run stops only for a tie, the infinite-loop refusal, a fractional draw or a rejected oracle *)
+Theorem C03_hare_every_recorded_count : forall cf votes n_seats prev caps (orc : oracle) e,
+  (forall c, (0 <= dget_or prev c 0)%Z) ->
+  let total := Qred (fold_left Qplus (map snd votes) 0) in
+  (forall qv, quota_of cf total n_seats = Some qv -> 0 < qv) ->
+  In e (h_counts (stv_h cf votes n_seats prev caps orc)) ->
+  fst e = [] \/
+  (NoDup (akeys (fst e)) /\ resting_ok (fst e) /\ (votes_whole votes -> alloc_whole (fst e)) /\
+   exists qs, match quota_of cf total n_seats with
+              | Some qv => asum (fst e) + inject_Z qs * qv == cast votes
+              | None => asum (fst e) == cast votes /\ qs = 0%Z
+              end).
+Proof.
+  intros cf votes n_seats prev caps orc e H0 total Hq He.
+  destruct (stv_h_recorded cf votes n_seats caps prev orc e He) as [(seats & qs & o & Hr)|Hn]; [right|left; exact Hn].
+  destruct (reach_h_conservation cf votes n_seats caps prev orc H0 Hq _ _ _ _ Hr) as (C1 & _ & C3).
+  split; [exact C1|]. split; [exact (reach_h_resting _ _ _ _ _ _ _ _ _ _ Hr)|].
+  split; [intros Hv; exact (reach_h_whole _ _ _ _ _ _ _ _ _ _ Hv Hr)|exists qs; exact C3].
+Qed.
+
+Theorem C03_hare_trace_stops : forall cf votes n_seats prev caps (orc : oracle),
+  (forall c, (0 <= dget_or prev c 0)%Z) ->
+  (forall qv, quota_of cf (Qred (fold_left Qplus (map snd votes) 0)) n_seats = Some qv -> 0 < qv) ->
+  votes_whole votes ->
+  match h_stop (stv_h cf votes n_seats prev caps orc) with
+  | None | Some (HS_std S_nie) | Some (HS_std S_vse) | Some (HS_std S_fuel) | Some HS_oracle | Some HS_type => True
+  | _ => False
+  end.
+Proof. intros cf votes n_seats prev caps orc H0 Hq Hv. exact (stv_h_stop cf votes n_seats caps prev orc H0 Hq Hv). Qed.
+
+(* non-vacuity: 13 whole votes, a shared first rank {1,2} of weight 3, two seats, Droop quota 5.
+   Oracle: [0] gives the odd vote of the shared rank to candidate 1; [0;3;4;1;6] draws 5 of the 7 votes of candidate 1
+   (four of its own ballot, one of the shared one); [0;1;2;3;4] draws all 5 votes of candidate 2.  The count ends
+   normally and consumed every entry.  The same count with a repeated number in the second entry is rejected. *)
+Definition hare_ex_votes : list (ballot * Q) :=
+  [([IP 1%positive; IP 2%positive], 5); ([IP 2%positive; IP 1%positive], 3); ([IP 3%positive; IP 1%positive], 2);
+   ([IS [1%positive; 2%positive]; IP 3%positive], 3)].
+Definition hare_ex_caps : list (C * Z) := [(1%positive, 1%Z); (2%positive, 1%Z); (3%positive, 1%Z)].
+Example C03_hare_example :
+  let t := stv_h (Build_cfg (Some Model.Quota.droop) true false (-1)) hare_ex_votes 2 [] hare_ex_caps
+                 [[0%Z]; [0%Z; 3%Z; 4%Z; 1%Z; 6%Z]; [0%Z; 1%Z; 2%Z; 3%Z; 4%Z]] in
+  votes_wholeb hare_ex_votes = true /\
+  h_seats t = [(1%positive, 1%Z); (2%positive, 1%Z)] /\ h_stop t = None /\ h_left t = 0%nat /\
+  map (fun e => totals (fst e)) (h_counts t) =
+    [[(Some 2%positive, 5); (Some 3%positive, 3)]; [(Some 3%positive, 3)]] /\
+  h_stop (stv_h (Build_cfg (Some Model.Quota.droop) true false (-1)) hare_ex_votes 2 [] hare_ex_caps
+                [[0%Z]; [0%Z; 3%Z; 3%Z; 1%Z; 6%Z]; [0%Z; 1%Z; 2%Z; 3%Z; 4%Z]]) = Some HS_oracle.
+Proof. vm_compute. repeat split; reflexivity. Qed.
+
 Print Assumptions C03_conservation_every_count.
 Print Assumptions C03_transfer_conserves.
 Print Assumptions C03_initial_allocation.
@@ -214,3 +417,18 @@ Print Assumptions C03_move_ballot_equal_split.
 Print Assumptions C03_shared_first_rank_split.
 Print Assumptions C03_initial_pile_weight.
 Print Assumptions C03_first_share_shared.
+Print Assumptions C03_hare_conservation_every_count.
+Print Assumptions C03_hare_whole_weights_every_count.
+Print Assumptions C03_hare_resting_every_count.
+Print Assumptions C03_hare_initial_allocation.
+Print Assumptions C03_hare_subtract_draw.
+Print Assumptions C03_hare_draws_bounded.
+Print Assumptions C03_hare_shared_rank_split.
+Print Assumptions C03_hare_transfer.
+Print Assumptions C03_hare_subtract.
+Print Assumptions C03_hare_election_rule.
+Print Assumptions C03_hare_last_standing.
+Print Assumptions C03_hare_elimination_step.
+Print Assumptions C03_hare_count_stops.
+Print Assumptions C03_hare_every_recorded_count.
+Print Assumptions C03_hare_trace_stops.
